@@ -1,0 +1,21 @@
+//go:build verif
+
+package gnmi
+
+import (
+	"context"
+
+	topoapi "github.com/onosproject/onos-api/go/onos/topo"
+	baseClient "github.com/openconfig/gnmi/client"
+	gclient "github.com/openconfig/gnmi/client/gnmi"
+	"google.golang.org/grpc"
+)
+
+// NewConnForVerif wraps the real client/conn types around an existing gRPC connection.
+func NewConnForVerif(ctx context.Context, targetID topoapi.ID, cc *grpc.ClientConn, d baseClient.Destination) (Conn, error) {
+	cl, err := gclient.NewFromConn(ctx, cc, d)
+	if err != nil {
+		return nil, err
+	}
+	return newConn(targetID, &client{client: cl}), nil
+}
